@@ -6,9 +6,9 @@ CONSTANTS
   NReader = 1
   FixClose = 2
   MaxVer = 9
-  AllowFail = FALSE
+  AllowFail = TRUE
   FixFail = TRUE
-  QuiescentClose = TRUE
+  QuiescentClose = FALSE
 SPECIFICATION Spec
-INVARIANTS Safe NoReachableFree RefsOK NoDoubleFree VerFreeOK AllReleased RefsAreHolders AllClosedAllFree
+INVARIANTS Safe NoReachableFree RefsOK NoDoubleFree VerFreeOK AllReleased RefsAreHolders 
 CHECK_DEADLOCK FALSE
